@@ -8,7 +8,6 @@ import (
 	"path/filepath"
 	"sort"
 	"strings"
-	"time"
 
 	"google.golang.org/protobuf/proto"
 
@@ -121,9 +120,6 @@ func newWorld(base string, spec CaseSpec) *world {
 	alg := compression.Algorithm(spec.Alg)
 	cfg.CompressionAlgorithm = alg
 	must(cfg.EnsureValid(false))
-	if os.Getenv("VERIF_DEBUG") != "" {
-		fmt.Fprintln(os.Stderr, "CONFIG", cfg.StageMode, "alpha", alpha, "limit", cfg.MaximumEntryCount)
-	}
 
 	sessL := fmt.Sprintf("verif%dL", caseCounter)
 	sessR := fmt.Sprintf("verif%dR", caseCounter)
@@ -514,19 +510,6 @@ func (w *world) opTransition() {
 		must(c.EnsureValid(true))
 	}
 	w.p.transition(changes)
-	if os.Getenv("VERIF_DEBUG") != "" {
-		for _, root := range []string{w.rootL, w.rootR} {
-			fi, err := os.Lstat(root)
-			fmt.Fprintln(os.Stderr, "AFTER-TRANSITION", root, fi != nil, err)
-			time.Sleep(200 * time.Millisecond)
-			fi, err = os.Lstat(root)
-			fmt.Fprintln(os.Stderr, "AFTER-TRANSITION+200ms", root, fi != nil, err)
-			entries, _ := os.ReadDir(filepath.Dir(root))
-			for _, e := range entries {
-				fmt.Fprintln(os.Stderr, "   sibling", e.Name())
-			}
-		}
-	}
 	w.scannedSinceTrans = false
 	w.plan = nil
 }
@@ -577,14 +560,6 @@ func (w *world) run(n int) {
 				fmt.Fprintln(os.Stderr, "OBS", o)
 			}
 			w.debugSeen = len(w.p.out)
-			for _, root := range []string{w.rootL, w.rootR} {
-				filepath.Walk(filepath.Dir(root), func(p string, info os.FileInfo, err error) error {
-					if info != nil {
-						fmt.Fprintln(os.Stderr, "   TREE", p, info.Mode(), info.Size())
-					}
-					return nil
-				})
-			}
 		}
 		switch k := w.r.Intn(100); {
 		case k < 28:
@@ -592,11 +567,21 @@ func (w *world) run(n int) {
 		case k < 58 || !w.everScanned:
 			w.opScan()
 		case k < 72:
-			// staging twice without a scan in between ends the session: rarely
-			if !w.scannedSinceStage && w.r.Intn(8) != 0 {
-				w.opScan()
-			} else {
+			// Staging twice without a scan in between ends the session: rarely.
+			// Otherwise stage right after a scan, as the controller does: with
+			// stale cache entries (edits or a transition since the scan) the
+			// local endpoint's own answer depends on Go's map iteration order
+			// (which of several cached paths with the wanted digest it tries
+			// to copy from), so two local endpoints need not agree either.
+			if !w.scannedSinceStage && w.r.Intn(8) == 0 {
 				w.opStage()
+			} else {
+				if !w.scannedSinceStage || !w.scannedSinceTrans || w.externalEditsSince {
+					w.opScan()
+				}
+				if w.scannedSinceStage && !w.p.dead {
+					w.opStage()
+				}
 			}
 		case k < 88:
 			if !w.scannedSinceTrans && w.r.Intn(4) != 0 {
